@@ -158,6 +158,10 @@ void harness(void)
 #ifdef FIX3_OFF
   IN.plain[FIX3_OFF] = FIX3_VAL;
 #endif
+#ifdef SEEDFIX
+  /* concrete seed with bytes >= 0x80, 0x7f, 0x01, space: code that scans the seed itself (signed char, isprint, ...) keeps a concrete length */
+  { static const u8 pat[8] = {0x41, 0xC3, 0x80, 0xFF, 0x7F, 0x01, 0xE9, 0x20}; for (u32 i = 0; i < SEEDLEN; i++) IN.seed[i] = pat[i % 8]; }
+#endif
   for (u32 i = 0; i < SEEDLEN; i++) { ASSUME(IN.seed[i] != 0); seed[i] = IN.seed[i]; }     /* r_buf is used up to its first NUL (strlen) */
   seed[SEEDLEN] = 0;
 #if MODEL
